@@ -65,11 +65,12 @@ type Enc struct {
 	epochHwm  map[int]Term    // allocation mark at the creation of each heap epoch
 	leafInfo  map[string]leafReg
 	loopEpochs map[int]bool // heap epochs created by loop havocs
+	mergeEpochs map[int]*mergeEp
 	frameHook func(name string, t Term, sort string)
 }
 
 func NewEnc(db *ContractDB, prog *ssa.Program, pkg *ssa.Package) *Enc {
-	return &Enc{decls: map[string]string{}, funs: map[string]string{}, axiomSet: map[string]bool{}, strConsts: map[string]int{}, typeIDs: map[string]int{}, usedSpecs: map[string]bool{}, db: db, prog: prog, pkg: pkg, assumedUsed: map[string]bool{}, inlinedUsed: map[string]bool{}, havocAllCalls: map[string]bool{}, refLeaf: map[string]int{}, refDone: map[string]bool{}, epochHwm: map[int]Term{}, leafInfo: map[string]leafReg{}, loopEpochs: map[int]bool{}}
+	return &Enc{decls: map[string]string{}, funs: map[string]string{}, axiomSet: map[string]bool{}, strConsts: map[string]int{}, typeIDs: map[string]int{}, usedSpecs: map[string]bool{}, db: db, prog: prog, pkg: pkg, assumedUsed: map[string]bool{}, inlinedUsed: map[string]bool{}, havocAllCalls: map[string]bool{}, refLeaf: map[string]int{}, refDone: map[string]bool{}, epochHwm: map[int]Term{}, leafInfo: map[string]leafReg{}, loopEpochs: map[int]bool{}, mergeEpochs: map[int]*mergeEp{}}
 }
 
 func (e *Enc) declare(name, sort string) Term {
@@ -291,42 +292,67 @@ func (s *State) heapArr(name, sort string) Term {
 	if t, ok := s.heap[name]; ok {
 		return t
 	}
-	ep := s.epoch
-	for p, e := range s.prefEp {
+	t := s.enc.version(name, sort, epochFor(name, s.epoch, s.prefEp))
+	s.heap[name] = t
+	return t
+}
+
+func epochFor(name string, epoch int, pref map[string]int) int {
+	ep := epoch
+	for p, e := range pref {
 		if strings.HasPrefix(name, p) && e > ep {
 			ep = e
 		}
 	}
-	t := s.enc.declare(fmt.Sprintf("%s@e%d", sanitizeHeap(name), ep), sort)
-	s.heap[name] = t
+	return ep
+}
+
+// mergeEp describes a heap epoch created at a join point of two states with different havoc
+// histories: a version at this epoch is ite(g, version on side a, version on side b).
+type mergeEp struct {
+	g              Term
+	aEpoch, bEpoch int
+	aPref, bPref   map[string]int
+}
+
+// version declares the unknown ("base") version of heap array name at epoch ep, with the facts
+// every such version satisfies.
+func (e *Enc) version(name, sort string, ep int) Term {
+	vn := fmt.Sprintf("%s@e%d", sanitizeHeap(name), ep)
+	if _, seen := e.decls[vn]; seen {
+		return Term{vn, sort}
+	}
+	t := e.declare(vn, sort)
 	// well-typed memory: every reference stored in this (unknown) heap version is below the
 	// allocation mark of the moment the version came into being
-	if lv, isRef := s.enc.refLeaf[name]; isRef {
-		if h, ok := s.enc.epochHwm[ep]; ok {
-			s.enc.addAxiom(rangeAxiom(t, lv, sort, "0", "", h.S))
+	if lv, isRef := e.refLeaf[name]; isRef {
+		if h, ok := e.epochHwm[ep]; ok {
+			e.addAxiom(rangeAxiom(t, lv, sort, "0", "", h.S))
 		}
 	}
-	if s.enc.loopEpochs[ep] && s.enc.frameHook != nil && !s.inAxiom {
-		s.inAxiom = true
-		s.enc.frameHook(name, t, sort)
-		s.inAxiom = false
-	}
-	// well-typed memory: slice/string headers and sized integers in this heap version are in range
-	if li, ok := s.enc.leafInfo[name]; ok && !s.inAxiom {
+	// slice/string headers and sized integers are in range
+	if li, ok := e.leafInfo[name]; ok {
 		switch {
 		case li.lo != "" || li.hi != "":
-			s.enc.addAxiom(rangeAxiom(t, li.levels, sort, li.lo, li.hi, ""))
+			e.addAxiom(rangeAxiom(t, li.levels, sort, li.lo, li.hi, ""))
 		case strings.HasSuffix(name, ".cap") && li.levels >= 1:
-			// cap >= len
-			s.inAxiom = true
-			ln := s.heapArr(strings.TrimSuffix(name, ".cap")+".len", sort)
-			s.inAxiom = false
+			ln := e.version(strings.TrimSuffix(name, ".cap")+".len", sort, ep)
 			if li.levels == 1 {
-				s.enc.addAxiom(fmt.Sprintf("(forall ((x Int)) (! (<= (select %s x) (select %s x)) :pattern ((select %s x))))", ln.S, t.S, t.S))
+				e.addAxiom(fmt.Sprintf("(forall ((x Int)) (! (<= (select %s x) (select %s x)) :pattern ((select %s x))))", ln.S, t.S, t.S))
 			} else if li.levels == 2 {
-				s.enc.addAxiom(fmt.Sprintf("(forall ((x Int) (y Int)) (! (<= (select (select %s x) y) (select (select %s x) y)) :pattern ((select (select %s x) y))))", ln.S, t.S, t.S))
+				e.addAxiom(fmt.Sprintf("(forall ((x Int) (y Int)) (! (<= (select (select %s x) y) (select (select %s x) y)) :pattern ((select (select %s x) y))))", ln.S, t.S, t.S))
 			}
 		}
+	}
+	// loop havoc: the loop frame relates this version to the entry version
+	if e.loopEpochs[ep] && e.frameHook != nil {
+		e.frameHook(name, t, sort)
+	}
+	// join of different havoc histories
+	if me, ok := e.mergeEpochs[ep]; ok {
+		ta := e.version(name, sort, epochFor(name, me.aEpoch, me.aPref))
+		tb := e.version(name, sort, epochFor(name, me.bEpoch, me.bPref))
+		e.addAxiom(Eq(t, Ite(me.g, ta, tb)).S)
 	}
 	return t
 }
